@@ -176,6 +176,7 @@ class Device:
         None
         """
 
+        self.fabrication_time = 0.0
         for key, writer in self.writers.items():
             if verbose and writer.obj_list:
                 print(f'Exporting {key.__name__} objects...')
